@@ -357,8 +357,7 @@ def check_session(sess, counters):
     if e[2] == 'next-raise':
       died = True
       first_next_raised = first_next_raised or e[3] == 0
-      exceptions.append(('first-next' if e[3] == 0 else 'next',
-                         f'worker {e[1]} next() #{e[3]} raised {e[4]}:\n{e[5]}'))
+      exceptions.append(('next', f'worker {e[1]} next() #{e[3]} raised {e[4]}:\n{e[5]}'))
     elif e[2] == 'ret' and e[5] == 'raise':
       died = True
       # harness fact: a co-worker had begun to finish the same trial before
